@@ -28,6 +28,13 @@ def gen(rng, tier):
     for n, mults, D in allp:
         G = common.mk_graph(n, [(i, i + 1, mults[i]) for i in range(n - 1)], rng)
         out.append({"G": G, "D": list(D), "band": "path", "fam": "exhaustive", "pool": "raise", "s": rng.randrange(1 << 30)})
+    # multi-edge stars on 4 vertices (a centre with three bundles of 1..2 edges) x divisors in the box {-1..3}^4 of degree 1..5, debt allowed: reductions of
+    # D - E that take three and more burning rounds with chipless vertices burning again and again (quick: a sample of 260, thorough: all of them)
+    alls = [(mults, D) for mults in itertools.product((1, 2), repeat=3) for D in itertools.product((-1, 0, 1, 2, 3), repeat=4) if 1 <= sum(D) <= 5]
+    for mults, D in (rng.sample(alls, 260) if tier == "quick" else alls):
+        c0 = rng.randrange(4); leaves = [v for v in range(4) if v != c0]
+        G = common.mk_graph(4, [(c0, leaves[i], mults[i]) for i in range(3)], rng)
+        out.append({"G": G, "D": list(D), "band": "star", "fam": "exhaustive", "pool": "raise", "s": rng.randrange(1 << 30)})
     # bottlenecks: an edge bundle thicker than the number of vertices next to a thin edge, chips on one side and debt on the other (many firing rounds
     # of the same set are needed before anything reaches the sink)
     for _ in range(60 if tier == "quick" else 600):
